@@ -996,6 +996,49 @@ example : hgProg.all (fun fn => callsArityG 2 4 fn.body) = true := by decide
 
 end SamVerif.C01
 
+/-! ## K1: the unboxing rule, stated (round 6) -/
+namespace SamVerif.C01
+open SamVerif.EnumLayout
+
+/-- **The unboxing rule for a finished payload enum, stated**: `type_permit_enum_boxed_optimization`
+allows a single-payload variant to be unboxed over a finished enum iff that enum has neither an
+`Int31` nor an `Unboxed` variant, i.e. all its variants are `Boxed` (seeded faults C01d / C03g each
+drop one half of this). `layout_injective` / `lowered_tests_exact` rest on it through
+`typePermit_ptr` (hypothesis there: the state satisfies `GInv`, which `demandAll` guarantees). -/
+theorem typePermit_finished_enum_iff (st : St) (n : Nat) (rs : List VRepr)
+    (h : lookupDef st.defs n = some (.enum rs)) :
+    typePermit st (.ref n) = true ↔ (.int31 ∉ rs ∧ ∀ t, .unboxed t ∉ rs) := by
+  simp only [typePermit, h, List.all_eq_true]
+  constructor
+  · intro hall
+    exact ⟨fun hm => by simpa [VRepr.isBoxed] using hall _ hm,
+      fun t hm => by simpa [VRepr.isBoxed] using hall _ hm⟩
+  · rintro ⟨h1, h2⟩ r hr
+    cases r with
+    | int31 => exact absurd hr h1
+    | unboxed t => exact absurd hr (h2 t)
+    | boxed ts => rfl
+
+/-- Necessity, `Int31` half: unboxing `Some(_)` over a payload enum with a constant variant
+(`Opt<Opt<P>>` with inner `[Int31, Unboxed P]`) makes `Some(None)` and `None` the same value. -/
+theorem unboxed_over_int31_payload_counterexample :
+    encode 2 [.int31, .unboxed 1] 0 [] = encode 2 [.int31, .unboxed 1] 1 [.i31 0] ∧
+    HasTy [(1, .enum [.int31, .unboxed 0]), (0, .struct 1)] 1 (.i31 0) :=
+  ⟨rfl, HasTy.int31 1 [.int31, .unboxed 0] 0 (by decide) (by decide)⟩
+
+/-- Necessity, `Unboxed` half (the shape of C01d / C03g): `class Tagged(Only(Point))` is laid out
+`[Unboxed Point]`; unboxing `Some(Tagged)` in `Option<Tagged>` gives `Some(Only(pt)) = pt`, a
+`Point` object, on which the lowered test `ref.test Tagged` of the `Some` arm fails: the match no
+longer recognises the value it was built from. -/
+theorem unboxed_over_unboxed_payload_counterexample :
+    encode 2 [.int31, .unboxed 1] 1 [.obj (.struct 0) [.i32 3]] = some (.obj (.struct 0) [.i32 3]) ∧
+    HasTy [(1, .enum [.unboxed 0]), (0, .struct 1)] 1 (.obj (.struct 0) [.i32 3]) ∧
+    testVariant 2 [.int31, .unboxed 1] 1 (.obj (.struct 0) [.i32 3]) = none := by
+  refine ⟨rfl, ?_, rfl⟩
+  exact HasTy.unboxed 1 [.unboxed 0] 0 0 _ (by decide) (by decide) (HasTy.struct 0 1 _ (by decide))
+
+end SamVerif.C01
+
 /-! ## K4 round 6: the own-slot clause is necessary; several parameters at once -/
 namespace SamVerif.C01
 open SamVerif.TailRec SamVerif.CpeSem
